@@ -12,6 +12,7 @@ import (
 	"time"
 
 	authzenv1 "github.com/openfga/api/proto/authzen/v1"
+	openfgav1 "github.com/openfga/api/proto/openfga/v1"
 	"google.golang.org/protobuf/types/known/structpb"
 
 	"github.com/openfga/openfga/internal/verifh/c04/kit"
@@ -27,10 +28,28 @@ type Q struct {
 	Obj     string `json:"obj"`
 	Rel     string `json:"rel"`
 	Ctx     *int   `json:"reqctx,omitempty"`
+	// CtxEmpty: the request carries a context object without any field ({}); Ctx is nil then
+	CtxEmpty bool `json:"reqctx_empty,omitempty"`
+}
+
+func ctxStr(c *int, empty bool) string {
+	if c == nil && empty {
+		return "{}"
+	}
+	return e2.CtxStr(c)
+}
+
+// ctxStruct: absent -> nil, present-but-empty -> a Struct without fields, value -> {x: value}.
+func ctxStruct(c *int, empty bool) *structpb.Struct {
+	if c == nil && empty {
+		s, _ := structpb.NewStruct(map[string]any{})
+		return s
+	}
+	return e2.ReqCtx(c)
 }
 
 func (q Q) String() string {
-	return fmt.Sprintf("%s#%s@%s ctx=%s", q.Obj, q.Rel, q.Subject, e2.CtxStr(q.Ctx))
+	return fmt.Sprintf("%s#%s@%s ctx=%s", q.Obj, q.Rel, q.Subject, ctxStr(q.Ctx, q.CtxEmpty))
 }
 
 func split(o string) (string, string) { i := strings.IndexByte(o, ':'); return o[:i], o[i+1:] }
@@ -74,7 +93,11 @@ func (w *world) native(q Q) string {
 	if v, ok := w.memo[k]; ok {
 		return v
 	}
-	out := w.env.Check(q.Obj, q.Rel, q.Subject, q.Ctx, nil)
+	out := w.env.Check(q.Obj, q.Rel, q.Subject, q.Ctx, nil, func(req *openfgav1.CheckRequest) {
+		if q.Ctx == nil && q.CtxEmpty {
+			req.Context = ctxStruct(nil, true) // the native request states an empty context object as well
+		}
+	})
 	w.memo[k] = out.V
 	return out.V
 }
@@ -93,7 +116,7 @@ func evalClass(r *authzenv1.EvaluationResponse) string {
 
 func (w *world) evaluation(q Q) string {
 	resp, err := w.env.S.Evaluation(w.ctx(), &authzenv1.EvaluationRequest{StoreId: w.env.StoreID,
-		Subject: subj(q.Subject, nil), Resource: res(q.Obj, nil), Action: act(q.Rel, nil), Context: e2.ReqCtx(q.Ctx)})
+		Subject: subj(q.Subject, nil), Resource: res(q.Obj, nil), Action: act(q.Rel, nil), Context: ctxStruct(q.Ctx, q.CtxEmpty)})
 	if err != nil {
 		return "ERR"
 	}
@@ -106,7 +129,15 @@ type Part struct {
 	Obj     string `json:"resource,omitempty"`
 	Rel     string `json:"action,omitempty"`
 	Ctx     *int   `json:"context,omitempty"`
+	// CtxEmpty: the context is PRESENT but has no fields ({}): on an item it overrides the top-level default
+	// with nothing (it is not "absent"); Ctx is nil then
+	CtxEmpty bool `json:"context_empty,omitempty"`
+	// EmptyField (items only): "subject" | "resource" | "action" is present as an empty object ({}): it overrides
+	// the default with a value no Check can accept
+	EmptyField string `json:"empty_field,omitempty"`
 }
+
+func pt(s, o, r string, c *int) Part { return Part{Subject: s, Obj: o, Rel: r, Ctx: c} }
 
 type Evals struct {
 	Variant  string `json:"variant"`
@@ -117,7 +148,7 @@ type Evals struct {
 
 // resolve: an item field wins, otherwise the top-level default applies (AuthZEN evaluations defaults).
 func resolve(top, it Part) (Q, bool) {
-	q := Q{Subject: it.Subject, Obj: it.Obj, Rel: it.Rel, Ctx: it.Ctx}
+	q := Q{Subject: it.Subject, Obj: it.Obj, Rel: it.Rel, Ctx: it.Ctx, CtxEmpty: it.CtxEmpty}
 	if q.Subject == "" {
 		q.Subject = top.Subject
 	}
@@ -127,8 +158,18 @@ func resolve(top, it Part) (Q, bool) {
 	if q.Rel == "" {
 		q.Rel = top.Rel
 	}
-	if q.Ctx == nil {
-		q.Ctx = top.Ctx
+	if it.Ctx == nil && !it.CtxEmpty { // ABSENT only: an empty item context is the item's own context
+		q.Ctx, q.CtxEmpty = top.Ctx, top.CtxEmpty
+	}
+	// a present-but-empty subject/resource/action is the item's own (unusable) value, not the default
+	switch it.EmptyField {
+	case "subject":
+		q.Subject = ":"
+	case "resource":
+		q.Obj = ":"
+	case "action":
+		q.Rel = ""
+		return q, q.Subject != "" && q.Obj != ""
 	}
 	return q, q.Subject != "" && q.Obj != "" && q.Rel != ""
 }
@@ -154,7 +195,7 @@ func (w *world) expectedEvals(e Evals) []string {
 }
 
 func (w *world) evaluations(e Evals) []string {
-	req := &authzenv1.EvaluationsRequest{StoreId: w.env.StoreID, Context: e2.ReqCtx(e.Top.Ctx)}
+	req := &authzenv1.EvaluationsRequest{StoreId: w.env.StoreID, Context: ctxStruct(e.Top.Ctx, e.Top.CtxEmpty)}
 	if e.Top.Subject != "" {
 		req.Subject = subj(e.Top.Subject, nil)
 	}
@@ -173,7 +214,7 @@ func (w *world) evaluations(e Evals) []string {
 		req.Options = &authzenv1.EvaluationsOptions{EvaluationsSemantic: authzenv1.EvaluationsSemantic_permit_on_first_permit}
 	}
 	for _, it := range e.Items {
-		x := &authzenv1.EvaluationsItemRequest{Context: e2.ReqCtx(it.Ctx)}
+		x := &authzenv1.EvaluationsItemRequest{Context: ctxStruct(it.Ctx, it.CtxEmpty)}
 		if it.Subject != "" {
 			x.Subject = subj(it.Subject, nil)
 		}
@@ -182,6 +223,14 @@ func (w *world) evaluations(e Evals) []string {
 		}
 		if it.Rel != "" {
 			x.Action = act(it.Rel, nil)
+		}
+		switch it.EmptyField {
+		case "subject":
+			x.Subject = &authzenv1.Subject{}
+		case "resource":
+			x.Resource = &authzenv1.Resource{}
+		case "action":
+			x.Action = &authzenv1.Action{}
 		}
 		req.Evaluations = append(req.Evaluations, x)
 	}
@@ -315,7 +364,7 @@ func check(r *core.Report, w *ref.World, endpoint string, want string, got strin
 }
 
 func sp(p Part) string {
-	return p.Subject + "|" + p.Obj + "|" + p.Rel + "|" + e2.CtxStr(p.Ctx)
+	return p.Subject + "|" + p.Obj + "|" + p.Rel + "|" + ctxStr(p.Ctx, p.CtxEmpty) + "|" + p.EmptyField
 }
 
 func one(r *core.Report, o *core.Options, env *e2.Env, w *ref.World, nodes []e2.Node, pinned bool) {
@@ -341,7 +390,7 @@ func one(r *core.Report, o *core.Options, env *e2.Env, w *ref.World, nodes []e2.
 		}
 		check(r, w, "Evaluation", want, ww.evaluation(q), func() (string, string) { return fresh(q), ww.evaluation(q) }, Case{Q: &q}, nt...)
 		// top-level-only Evaluations request (no items) behaves like a single Evaluation
-		e := Evals{Variant: "no-items", Top: Part{q.Subject, q.Obj, q.Rel, q.Ctx}}
+		e := Evals{Variant: "no-items", Top: pt(q.Subject, q.Obj, q.Rel, q.Ctx)}
 		// without items the request is a single evaluation: a failing Check fails the request (both sides error)
 		noItems := func() string {
 			g := strings.Join(ww.evaluations(e), ",")
@@ -353,7 +402,7 @@ func one(r *core.Report, o *core.Options, env *e2.Env, w *ref.World, nodes []e2.
 		check(r, w, "Evaluations", want, noItems(), func() (string, string) { return fresh(q), noItems() }, Case{Evals: &e}, nt...)
 	}
 	// ---- batched ----
-	full := func(q Q) Part { return Part{q.Subject, q.Obj, q.Rel, q.Ctx} }
+	full := func(q Q) Part { return pt(q.Subject, q.Obj, q.Rel, q.Ctx) }
 	var evs []Evals
 	add := func(variant string, top Part, items []Part, sems ...string) {
 		if len(items) == 0 {
@@ -384,7 +433,7 @@ func one(r *core.Report, o *core.Options, env *e2.Env, w *ref.World, nodes []e2.
 	add("permitted-first", Part{}, byWant("T"), "deny_on_first_deny", "permit_on_first_permit")
 	add("denied-first", Part{}, byWant("F"), "deny_on_first_deny", "permit_on_first_permit", "execute_all")
 	// decoy defaults at top level: complete items must ignore them, items without context inherit the top context
-	add("top-level-decoys", Part{"user:b", "doc:2", "r1", &e2.Twenty}, items, "execute_all", "deny_on_first_deny")
+	add("top-level-decoys", pt("user:b", "doc:2", "r1", &e2.Twenty), items, "execute_all", "deny_on_first_deny")
 	alt := func(i int) []string {
 		return [][]string{{"execute_all", "permit_on_first_permit"}, {"", "deny_on_first_deny"}}[i%2]
 	}
@@ -392,7 +441,7 @@ func one(r *core.Report, o *core.Options, env *e2.Env, w *ref.World, nodes []e2.
 		var its []Part
 		for _, q := range qs {
 			if q.Subject == s {
-				its = append(its, Part{"", q.Obj, q.Rel, q.Ctx})
+				its = append(its, pt("", q.Obj, q.Rel, q.Ctx))
 			}
 		}
 		add("subject-from-top", Part{Subject: s}, its, alt(i)...)
@@ -404,7 +453,7 @@ func one(r *core.Report, o *core.Options, env *e2.Env, w *ref.World, nodes []e2.
 			var its []Part
 			for _, q := range qs {
 				if q.Obj == n.Obj {
-					its = append(its, Part{q.Subject, "", q.Rel, q.Ctx})
+					its = append(its, pt(q.Subject, "", q.Rel, q.Ctx))
 				}
 			}
 			add("resource-from-top", Part{Obj: n.Obj}, its, alt(i)...)
@@ -414,7 +463,7 @@ func one(r *core.Report, o *core.Options, env *e2.Env, w *ref.World, nodes []e2.
 			var its []Part
 			for _, q := range qs {
 				if q.Rel == n.Rel {
-					its = append(its, Part{q.Subject, q.Obj, "", q.Ctx})
+					its = append(its, pt(q.Subject, q.Obj, "", q.Ctx))
 				}
 			}
 			add("action-from-top", Part{Rel: n.Rel}, its, alt(i+1)...)
@@ -427,7 +476,7 @@ func one(r *core.Report, o *core.Options, env *e2.Env, w *ref.World, nodes []e2.
 		var its []Part
 		for _, q := range qs {
 			if q.Ctx == rc {
-				its = append(its, Part{q.Subject, q.Obj, q.Rel, nil})
+				its = append(its, pt(q.Subject, q.Obj, q.Rel, nil))
 			}
 		}
 		add("context-from-top", Part{Ctx: rc}, its, alt(i)...)
@@ -454,10 +503,140 @@ func one(r *core.Report, o *core.Options, env *e2.Env, w *ref.World, nodes []e2.
 		}
 		add("items-state-differences-only", full(t), its, all4...)
 	}
+	// ---- context states: ABSENT / PRESENT-BUT-EMPTY ({}) / value, at the top level and on every item ----
+	// top state x item state, every base request (subject, resource, action) x every item state in one batch per
+	// (top state, semantic). The short-circuit semantics get the items ordered by the native answer of the
+	// harness-resolved item (longest evaluated prefix; the group that cuts is rotated with the top state).
+	type cstate struct {
+		c     *int
+		empty bool
+	}
+	kind := func(c cstate) string {
+		switch {
+		case c.empty:
+			return "empty"
+		case c.c == nil:
+			return "absent"
+		}
+		return "value"
+	}
+	states := []cstate{{nil, false}, {nil, true}}
+	for _, rc := range ctxs {
+		if rc != nil {
+			states = append(states, cstate{rc, false})
+		}
+	}
+	var bases []Q
+	for _, q := range qs {
+		if q.Ctx == nil {
+			bases = append(bases, q)
+		}
+	}
+	// a base request takes the value states on its items only when its REFERENCE answer (harness fixpoint
+	// semantics over the world, not the server) differs between the contexts none/1/20; the other base requests
+	// take absent / empty only (nothing a context says can change them)
+	dependsOnCtx := func(b Q) bool {
+		if len(states) == 2 {
+			return false
+		}
+		first, _ := w.Holds(b.Obj, b.Rel, b.Subject, nil)
+		for _, rc := range ctxs {
+			if v, _ := w.Holds(b.Obj, b.Rel, b.Subject, rc); v != first {
+				return true
+			}
+		}
+		return false
+	}
+	dep := map[string]bool{}
+	for _, b := range bases {
+		dep[b.String()] = dependsOnCtx(b)
+		if dep[b.String()] {
+			r.Count("context_state_base_requests_depending_on_the_context", 1)
+		}
+	}
+	r.Count("context_state_base_requests", int64(len(bases)))
+	for ti, ts := range states {
+		top := Part{Ctx: ts.c, CtxEmpty: ts.empty}
+		var its []Part
+		for _, b := range bases {
+			for _, is := range states {
+				if is.c != nil && !dep[b.String()] {
+					continue
+				}
+				its = append(its, Part{Subject: b.Subject, Obj: b.Obj, Rel: b.Rel, Ctx: is.c, CtxEmpty: is.empty})
+				r.Count("context_state_items/top="+kind(ts)+"/item="+kind(is), 1)
+			}
+		}
+		ordered := func(first string) []Part {
+			var a, b []Part
+			for _, it := range its {
+				q, _ := resolve(top, it)
+				if (ww.native(q) == "T") == (first == "T") {
+					a = append(a, it)
+				} else {
+					b = append(b, it)
+				}
+			}
+			if len(b) > 0 {
+				k := ti % len(b)
+				b = append(append([]Part{}, b[k:]...), b[:k]...)
+			}
+			return append(a, b...)
+		}
+		sems := all4[1:] // the three named semantics ("no options" is the execute_all path: kept for condition-free worlds)
+		if len(states) == 2 {
+			sems = alt(ti) // no condition in the world: the context cannot decide anything, half of the semantics per top state
+		}
+		for _, sem := range sems {
+			switch sem {
+			case "deny_on_first_deny":
+				add("context-states", top, ordered("T"), sem)
+			case "permit_on_first_permit":
+				add("context-states", top, ordered("F"), sem)
+			default:
+				add("context-states", top, its, sem)
+			}
+		}
+	}
+	// a single Evaluation / an Evaluations request without items whose context is {}
+	for _, b := range bases {
+		q := b
+		q.CtxEmpty = true
+		want := ww.native(q)
+		var nt []string
+		if want != "F" {
+			nt = []string{q.String()}
+		}
+		check(r, w, "Evaluation", want, ww.evaluation(q), func() (string, string) { return fresh(q), ww.evaluation(q) }, Case{Q: &q}, nt...)
+		e := Evals{Variant: "no-items", Top: Part{Subject: q.Subject, Obj: q.Obj, Rel: q.Rel, CtxEmpty: true}}
+		noItems := func() string {
+			g := strings.Join(ww.evaluations(e), ",")
+			if g == "REQUEST-ERR" {
+				return "ERR"
+			}
+			return g
+		}
+		check(r, w, "Evaluations", want, noItems(), func() (string, string) { return fresh(q), noItems() }, Case{Evals: &e}, nt...)
+	}
+	// an item states subject / resource / action as an EMPTY object: it does not inherit the default; the native
+	// Check of the resolved item fails, so the item must be an error item (or the whole request is refused)
+	if len(bases) > 0 {
+		t := bases[len(bases)/2]
+		for _, f := range []string{"subject", "resource", "action"} {
+			add("empty-"+f+"-item", pt(t.Subject, t.Obj, t.Rel, nil), []Part{{}, {EmptyField: f}, {}}, all4...)
+		}
+	}
 	for _, e := range evs {
 		e := e
 		want := strings.Join(ww.expectedEvals(e), ",")
 		got := strings.Join(ww.evaluations(e), ",")
+		if got == "REQUEST-ERR" && strings.HasPrefix(e.Variant, "empty-") {
+			// refusing the whole request is an accepted reading iff the native Check of the empty-field item errors
+			if q, _ := resolve(e.Top, e.Items[1]); ww.native(q) == "ERR" {
+				r.Count("empty_field_item_refused_as_a_request", 1)
+				got = want
+			}
+		}
 		nt := []string{e.Variant, e.Semantic, sp(e.Top)}
 		for _, it := range e.Items {
 			nt = append(nt, sp(it))
@@ -529,11 +708,12 @@ func nodesFor(o *core.Options) []e2.Node {
 
 func Run(o *core.Options) int {
 	r := core.NewReport(o, "exploration",
-		"selected models x every tuple subset |T|<=2 x requests = (object,relation in {r0,r1,parent,member}) x AuthZEN-expressible subjects {user:a, user:*, group:1, doc:2} x request contexts {none,1,20 when T has a condition}. Per request: Evaluation vs native Check of subject 'type:id', resource 'type:id', action=relation, context=context (class T/F/ERR); the same through an Evaluations request without items. Per world: Evaluations batches in the variants items-complete, permitted-first, denied-first, top-level-decoys, subject/resource/action/context-from-top, items-state-differences-only x semantics {no options, execute_all, deny_on_first_deny, permit_on_first_permit}: response list vs the native Checks of the harness-resolved items, cut by the harness' own reading of the semantic. SubjectSearch vs ListUsers (filter type user/group/doc) and ResourceSearch vs ListObjects as sets. Property pass (third pass): the same models with the condition declared over parameter P in {x, subject_x, resource_x, action_x} (cx(P:int):=P<10, one store per P; stored tuple contexts use P) x every tuple subset |T|<=2 containing a conditioned tuple that does not store P x the requests whose REFERENCE answer (harness fixpoint semantics, not the server) differs between P absent/1/20 x carrier vectors: property x on subject, on resource, on action each absent/1/20 (27 combinations) without the request-level key, plus request-level context key P in {1,20} with at most one property source present (14 precedence vectors; 41 in all, 19 for ActionSearch which has no action). Expected = native call with the harness-mapped context {subject_x, resource_x, action_x from the properties, request-level keys unchanged and winning}. Endpoints: Evaluation; Evaluations without items (carriers at top level), Evaluations with the carriers as top-level defaults and 5 items (inherit all / restate subject, resource, action with their own rotated properties / restate the context) with the semantic rotated over the vectors, Evaluations with every (request, vector) as a complete item per semantic (short-circuit semantics ordered for the longest prefix); SubjectSearch (properties on the subject filter, resource, action) vs ListUsers; ResourceSearch (subject, resource filter, action) vs ListObjects; ActionSearch (subject, resource) vs the set of relations of the resource type whose native Check allows. non-trivial = native answer not F / not empty / list containing T or ERR; distinct by (endpoint, model, tuples, request)")
+		"selected models x every tuple subset |T|<=2 x requests = (object,relation in {r0,r1,parent,member}) x AuthZEN-expressible subjects {user:a, user:*, group:1, doc:2} x request contexts {none,1,20 when T has a condition}. Per request: Evaluation vs native Check of subject 'type:id', resource 'type:id', action=relation, context=context (class T/F/ERR); the same through an Evaluations request without items. Per world: Evaluations batches in the variants items-complete, permitted-first, denied-first, top-level-decoys, subject/resource/action/context-from-top, items-state-differences-only x semantics {no options, execute_all, deny_on_first_deny, permit_on_first_permit}: response list vs the native Checks of the harness-resolved items, cut by the harness' own reading of the semantic. Context states: a context is ABSENT, PRESENT-BUT-EMPTY ({}) or carries a value (1, 20 when T has a condition); per world and per top-level state (absent/{}/1/20) one batch per semantic {execute_all, deny_on_first_deny, permit_on_first_permit; no options and half of the semantics per top state in condition-free worlds} whose items are every base request (subject, resource, action) x item state absent/{} and, for the base requests whose reference answer (harness fixpoint semantics) differs between the contexts, x item state 1/20; an item inherits the top-level context only when its own is ABSENT, an item context {} resolves to a native Check that states the context {} (so a missing condition parameter is an error item: decision=false plus context.error, never a plain decision); short-circuit semantics get the items ordered by the native answer (longest prefix, cutting group rotated with the top state). Evaluation and Evaluations-without-items with context {} per base request. Items that state subject / resource / action as an empty object (3 fields x 4 semantics, between two inheriting items): the item resolves to its own unusable value, never to the default: expected an error item at that position, or the whole request refused. SubjectSearch vs ListUsers (filter type user/group/doc) and ResourceSearch vs ListObjects as sets. Property pass (third pass): the same models with the condition declared over parameter P in {x, subject_x, resource_x, action_x} (cx(P:int):=P<10, one store per P; stored tuple contexts use P) x every tuple subset |T|<=2 containing a conditioned tuple that does not store P x the requests whose REFERENCE answer (harness fixpoint semantics, not the server) differs between P absent/1/20 x carrier vectors: property x on subject, on resource, on action each absent/1/20 (27 combinations) without the request-level key, plus request-level context key P in {1,20} with at most one property source present (14 precedence vectors; 41 in all, 19 for ActionSearch which has no action). Expected = native call with the harness-mapped context {subject_x, resource_x, action_x from the properties, request-level keys unchanged and winning}. Endpoints: Evaluation; Evaluations without items (carriers at top level), Evaluations with the carriers as top-level defaults and 5 items (inherit all / restate subject, resource, action with their own rotated properties / restate the context) with the semantic rotated over the vectors, Evaluations with every (request, vector) as a complete item per semantic (short-circuit semantics ordered for the longest prefix); SubjectSearch (properties on the subject filter, resource, action) vs ListUsers; ResourceSearch (subject, resource filter, action) vs ListObjects; ActionSearch (subject, resource) vs the set of relations of the resource type whose native Check allows. non-trivial = native answer not F / not empty / list containing T or ERR; distinct by (endpoint, model, tuples, request)")
 	r.Assume("memory datastore; experimental flag 'authzen'; first pass: AuthZEN requests carry no model header, so the latest model (the model under test) is used on both sides; second pass (3 models in quick, 30 in thorough): a permissive model is written after the model under test, AuthZEN requests pin the model under test with the Openfga-Authorization-Model-Id header and the native requests name it",
 		"universe 2 users/2 groups/2 docs; rewrites of depth<=1; one condition cx(x:int):=x<10",
 		"userset subjects (group:1#member, ...) cannot be expressed in AuthZEN (subject.id must not contain '#') and are outside the request space",
 		"an item-level error of Evaluations is a response with decision=false and context.error; it is compared with a native Check error (class ERR)",
+		"context states: one context key (x); the native reference of an item whose context is {} is the Check carrying an empty context object; refusing a whole Evaluations request because an item states an empty subject/resource/action object is accepted iff the native Check of that resolved item errors (counter empty_field_item_refused_as_a_request)",
 		"quick: requests address doc:1 / group:1 (symmetric universe); a deviation must repeat in at least 4 of 5 re-executions",
 		"property pass: one property key (x) per source and one condition parameter per model; the mapping source.properties.k -> source_k and 'request context wins' is the harness' reading of the AuthZEN mapping documented in pkg/server/authzen.go; a stated item-level subject/resource/action replaces the top-level default together with its properties; requests whose reference answer does not depend on the parameter are left to the first pass (no properties)")
 	r.Set("property_pass_condition_parameters", params)
